@@ -80,7 +80,7 @@ def gen_cases(rnd, fam, n_cases):
     all_cases = []
     for name in names:
         d = fam[name]
-        for ck in (None, "ck1"):
+        for ck in (None, next_ck()):
             all_cases.append((name, "comp", None, None, ck))
             for coll in ("TColl", "TColl2"):
                 all_cases.append((name, "slice", coll, None, ck))
@@ -92,7 +92,7 @@ def gen_cases(rnd, fam, n_cases):
                  ("delete:a", dict(kind="ctxProc", inT="BaseDataType", outT=None, created=[], params=["a"])),
                  ('template:"x{a}_{c}":out', dict(kind="ctxProc", inT="BaseDataType", outT=None, created=["out"], params=["a", "c"]))):
         fam[s] = d
-        for ck in (None, "ck1"):
+        for ck in (None, next_ck()):
             all_cases.append((s, "comp", None, None, ck))
     if n_cases < len(all_cases):
         rnd.shuffle(all_cases)
@@ -105,6 +105,16 @@ DOMAINS = [[1, 2], [1.0, 2.0, float("inf")], [float("nan")], [float("-inf"), 0],
            {"lo": 0.0, "hi": 1.0, "steps": 3}, {"lo": 1.0, "hi": 10.0, "steps": 2, "scale": "log", "endpoint": False},
            {"values": [10 ** 30, -1]}, [1, 2], ["µ", "x y"], [0], [1e308, 5e-324]]
 _domain_counter = [0]
+
+
+# context keys a probe result may be stored under: any non-blank string is accepted by the node factory
+CKS = ["ck1", "roi-1.mean", "peak height", "stats/values", "µ_1", "1st", "a.b.c", "with:colon", "ck1"]
+_ck_counter = [0]
+
+
+def next_ck():
+    _ck_counter[0] += 1
+    return CKS[_ck_counter[0] % len(CKS)]
 
 
 def next_domain():
